@@ -249,4 +249,19 @@ def createProofs (creds : List (String × CredI)) (stmts : List CStmt) : Option 
         ++ stmts.filterMap (predProofOf creds)).foldl imInsert [])
   else none
 
+/-- the `disclosed_messages` map `create` reports: per signature statement with a builder, the labels of the
+revealed claims in claim-index order (`claim_indices.get_index(index)`), in signature-statement order -/
+def createDisclosed (creds : List (String × CredI)) (ms : Messages) (stmts : List CStmt) :
+    List (String × List String) :=
+  stmts.filterMap fun
+    | .sig id _ labels _ =>
+      match sigClaims creds id, ms.lookup id with
+      | some _, some v => some (id, (revealedIdx v).filterMap (labels[·]?))
+      | _, _ => none
+    | _ => none
+
+/-- … of the presentation `create` returns (`none`: an error) -/
+def createReport (creds : List (String × CredI)) (stmts : List CStmt) : Option (List (String × List String)) :=
+  if createOk creds stmts then (messagesOf creds stmts).map fun ms => createDisclosed creds ms stmts else none
+
 end AC.Create
